@@ -379,7 +379,7 @@ theorem stepRaw_RK {s : SeqState} (hd : DevOk s.dev) (hi : SeqInv s) (op : Op) :
           · apply RK_store
             have hmem : cfg ∈ s.dev.dmms := List.mem_of_getElem? hcfg
             exact addChannel_SK hi (freshChan_inv (hd.2 cfg hmem)) freshChan_lpc
-  | target qs n => exact RK_store _ (RK_targetCore hi _ _)
+  | target qs n => exact RK_store _ (RK_orRollback hi (RK_targetCore hi _ _))
   | add p n proto =>
     simp only [stepRaw]
     apply RK_store; apply RK_markNonEmpty
@@ -395,10 +395,11 @@ theorem stepRaw_RK {s : SeqState} (hd : DevOk s.dev) (hi : SeqInv s) (op : Op) :
     apply RK_store; apply RK_markNonEmpty
     repeat' split
     all_goals first | exact RK_fail hi _ | exact RK_addCore hi _ _ _ _
-  | delay d n atRest => exact RK_store _ (RK_delayChecked hi _ _ _)
+  | delay d n atRest => exact RK_store _ (RK_orRollback hi (RK_delayChecked hi _ _ _))
   | align chs atRest =>
     simp only [stepRaw]
     apply RK_store
+    apply RK_orRollback hi
     repeat' split
     all_goals first | exact RK_fail hi _ | exact RK_done (SK.rfl' hi) | exact RK_alignLoop hi _ _
   | phaseShift phi qs b => exact RK_store _ (RK_phaseShift hi _ _ _)
@@ -414,7 +415,8 @@ theorem stepRaw_RK {s : SeqState} (hd : DevOk s.dev) (hi : SeqInv s) (op : Op) :
           · exact RK_fail hi _
           · split
             · exact RK_fail hi _
-            · unfold enableEomCommit
+            · apply RK_orRollback hi
+              unfold enableEomCommit
               apply RK_bind (RK_withChan_gn hi (fun c hc => enableEom_gn hc))
               intro s1 hi1 _
               apply RK_store
@@ -431,7 +433,8 @@ theorem stepRaw_RK {s : SeqState} (hd : DevOk s.dev) (hi : SeqInv s) (op : Op) :
         · exact RK_fail hi _
         · split
           · exact RK_fail hi _
-          · unfold modifyEomCommit
+          · apply RK_orRollback hi
+            unfold modifyEomCommit
             apply RK_bind (RK_withChan_gn hi (fun c hc => disableEom_gn hc))
             intro s1 hi1 hd1
             split
@@ -446,6 +449,7 @@ theorem stepRaw_RK {s : SeqState} (hd : DevOk s.dev) (hi : SeqInv s) (op : Op) :
   | disableEom n corr =>
     simp only [stepRaw]
     apply RK_store
+    apply RK_orRollback hi
     split
     · exact RK_fail hi _
     · split
